@@ -115,12 +115,60 @@ func keysCase(c *mon.Case, mk string, hid byte) {
 			}
 		}
 	}
+	signMasterPubForms(c, spub, uid, hid, msg, sig)
+	signUserForms(c, suk, spub, uid, hid, msg, rnd)
+	// ---------------- encryption side
+	emk, ke := genEncMaster(c, mk, false)
+	if emk == nil {
+		return
+	}
+	epub := emk.PublicKey()
+	euk := genEncUser(c, emk, ke, uid, hid)
+	if euk == nil {
+		return
+	}
+	var wkey, wcip []byte
+	if !c.Call("WrapKey", func() { wkey, wcip, err = sm9.WrapKey(rnd, epub, uid, hid, 48) }) || err != nil {
+		c.Fail("reject", "WrapKey: %v", err)
+		return
+	}
+	if c.Call("EncryptMasterPrivateKey.MarshalASN1", func() { der, err = emk.MarshalASN1() }) && err == nil {
+		c.Eq("EncryptMasterPrivateKey.MarshalASN1 vs DER INTEGER", der, ref.DERInteger(ke))
+		digest(c, "der/emk", der)
+		for _, f := range []form{{"der/integer", der}, {"der/sequence+masterpub", ref.DERSequence(der, ref.DERBitString(epub.Bytes()))}} {
+			var k2 *sm9.EncryptMasterPrivateKey
+			if !c.Call("UnmarshalEncryptMasterPrivateKeyASN1("+f.name+")", func() { k2, err = sm9.UnmarshalEncryptMasterPrivateKeyASN1(f.data) }) {
+				continue
+			}
+			c.Event("parsed/"+f.name, 1)
+			if err != nil {
+				c.Fail("reject", "UnmarshalEncryptMasterPrivateKeyASN1(%s %x): %v", f.name, f.data, err)
+				continue
+			}
+			if !k2.Equal(emk) || !emk.Equal(k2) {
+				c.Fail("mismatch", "parsed encryption master key is not Equal to the original (%s)", f.name)
+			}
+			c.Eq("parsed encryption master key bytes ("+f.name+")", k2.Bytes(), emk.Bytes())
+			c.Eq("public key of the parsed encryption master key ("+f.name+")", k2.PublicKey().Bytes(), epub.Bytes())
+			if u2, e := k2.GenerateUserKey(uid, hid); e != nil || !u2.Equal(euk) {
+				c.Fail("mismatch", "parsed encryption master key derives another user key (%s, %v)", f.name, e)
+			}
+		}
+	}
+	encMasterPubForms(c, epub, euk, uid, hid, rnd)
+	encUserForms(c, euk, epub, uid, wcip, wkey, 48)
+}
+
+// signMasterPubForms: the signature master public key in every encoding the package reads parses back to an
+// equal key; keys parsed from two of the forms verify an honest signature sig of msg by (uid, hid).
+func signMasterPubForms(c *mon.Case, spub *sm9.SignMasterPublicKey, uid []byte, hid byte, msg, sig []byte) {
+	var der, cder []byte
+	var err error
 	// master public key
 	if c.Call("SignMasterPublicKey.MarshalASN1", func() { der, err = spub.MarshalASN1() }) && err == nil {
 		c.Eq("SignMasterPublicKey.MarshalASN1 vs DER BIT STRING", der, ref.DERBitString(spub.Bytes()))
 		digest(c, "der/spub", der)
 	}
-	var cder []byte
 	if c.Call("SignMasterPublicKey.MarshalCompressedASN1", func() { cder, err = spub.MarshalCompressedASN1() }) && err == nil {
 		digest(c, "der/spub-compressed", cder)
 		noteCompressed(c, "SignMasterPublicKey", cder, spub.Bytes())
@@ -156,7 +204,13 @@ func keysCase(c *mon.Case, mk string, hid byte) {
 			}
 		}
 	}
-	// user private key
+}
+
+// signUserForms: the signature user key in every encoding parses back to an equal key; the forms that carry the
+// master public key give a key that signs.
+func signUserForms(c *mon.Case, suk *sm9.SignPrivateKey, spub *sm9.SignMasterPublicKey, uid []byte, hid byte, msg []byte, rnd *mon.Script) {
+	var der, cder []byte
+	var err error
 	if c.Call("SignPrivateKey.MarshalASN1", func() { der, err = suk.MarshalASN1() }) && err == nil {
 		c.Eq("SignPrivateKey.MarshalASN1 vs DER BIT STRING", der, ref.DERBitString(suk.Bytes()))
 		digest(c, "der/suk", der)
@@ -202,45 +256,13 @@ func keysCase(c *mon.Case, mk string, hid byte) {
 			}
 		}
 	}
+}
 
-	// ---------------- encryption side
-	emk, ke := genEncMaster(c, mk, false)
-	if emk == nil {
-		return
-	}
-	epub := emk.PublicKey()
-	euk := genEncUser(c, emk, ke, uid, hid)
-	if euk == nil {
-		return
-	}
-	var wkey, wcip []byte
-	if !c.Call("WrapKey", func() { wkey, wcip, err = sm9.WrapKey(rnd, epub, uid, hid, 48) }) || err != nil {
-		c.Fail("reject", "WrapKey: %v", err)
-		return
-	}
-	if c.Call("EncryptMasterPrivateKey.MarshalASN1", func() { der, err = emk.MarshalASN1() }) && err == nil {
-		c.Eq("EncryptMasterPrivateKey.MarshalASN1 vs DER INTEGER", der, ref.DERInteger(ke))
-		digest(c, "der/emk", der)
-		for _, f := range []form{{"der/integer", der}, {"der/sequence+masterpub", ref.DERSequence(der, ref.DERBitString(epub.Bytes()))}} {
-			var k2 *sm9.EncryptMasterPrivateKey
-			if !c.Call("UnmarshalEncryptMasterPrivateKeyASN1("+f.name+")", func() { k2, err = sm9.UnmarshalEncryptMasterPrivateKeyASN1(f.data) }) {
-				continue
-			}
-			c.Event("parsed/"+f.name, 1)
-			if err != nil {
-				c.Fail("reject", "UnmarshalEncryptMasterPrivateKeyASN1(%s %x): %v", f.name, f.data, err)
-				continue
-			}
-			if !k2.Equal(emk) || !emk.Equal(k2) {
-				c.Fail("mismatch", "parsed encryption master key is not Equal to the original (%s)", f.name)
-			}
-			c.Eq("parsed encryption master key bytes ("+f.name+")", k2.Bytes(), emk.Bytes())
-			c.Eq("public key of the parsed encryption master key ("+f.name+")", k2.PublicKey().Bytes(), epub.Bytes())
-			if u2, e := k2.GenerateUserKey(uid, hid); e != nil || !u2.Equal(euk) {
-				c.Fail("mismatch", "parsed encryption master key derives another user key (%s, %v)", f.name, e)
-			}
-		}
-	}
+// encMasterPubForms: the encryption master public key in every encoding parses back to an equal key; keys parsed
+// from two of the forms wrap a key that euk, the user key of (uid, hid), unwraps.
+func encMasterPubForms(c *mon.Case, epub *sm9.EncryptMasterPublicKey, euk *sm9.EncryptPrivateKey, uid []byte, hid byte, rnd *mon.Script) {
+	var der, cder []byte
+	var err error
 	if c.Call("EncryptMasterPublicKey.MarshalASN1", func() { der, err = epub.MarshalASN1() }) && err == nil {
 		c.Eq("EncryptMasterPublicKey.MarshalASN1 vs DER BIT STRING", der, ref.DERBitString(epub.Bytes()))
 		digest(c, "der/epub", der)
@@ -286,6 +308,13 @@ func keysCase(c *mon.Case, mk string, hid byte) {
 			}
 		}
 	}
+}
+
+// encUserForms: the encryption user key in every encoding parses back to an equal key; keys parsed from two of
+// the forms unwrap wcip to wkey (klen bytes).
+func encUserForms(c *mon.Case, euk *sm9.EncryptPrivateKey, epub *sm9.EncryptMasterPublicKey, uid, wcip, wkey []byte, klen int) {
+	var der, cder []byte
+	var err error
 	if c.Call("EncryptPrivateKey.MarshalASN1", func() { der, err = euk.MarshalASN1() }) && err == nil {
 		c.Eq("EncryptPrivateKey.MarshalASN1 vs DER BIT STRING", der, ref.DERBitString(euk.Bytes()))
 		digest(c, "der/euk", der)
@@ -317,7 +346,7 @@ func keysCase(c *mon.Case, mk string, hid byte) {
 		c.Eq("parsed EncryptPrivateKey bytes ("+f.name+")", u2.Bytes(), euk.Bytes())
 		if f.name == "raw/compressed" || f.name == "der/sequence-compressed+masterpub" {
 			var back []byte
-			if c.Call("UnwrapKey(parsed key)", func() { back, err = sm9.UnwrapKey(u2, uid, wcip, 48) }) {
+			if c.Call("UnwrapKey(parsed key)", func() { back, err = sm9.UnwrapKey(u2, uid, wcip, klen) }) {
 				if err != nil || !bytes.Equal(back, wkey) {
 					c.Fail("mismatch", "EncryptPrivateKey parsed from %s does not unwrap (%v)", f.name, err)
 				}
